@@ -85,10 +85,33 @@ func Main(args []string) int {
 		}
 		res := RunSched(l, f, params, *workers, 60000, *verbose)
 		printResult(res)
-		for _, v := range res.Violations {
+		var nt *NativeTest
+		for i := range res.Violations {
+			v := &res.Violations[i]
 			fmt.Printf("   SCHED-VIOL %s: %s\n", v.Label, v.Msg)
 			for _, t := range v.Trace {
 				fmt.Println("        ", t)
+			}
+			if os.Getenv("VERIF_SCHED_REPLAY") != "" {
+				if nt == nil {
+					if v.SchedFree {
+						nt, err = BuildNativeTestRace(repoDir(), filepath.Join(verifDir(), "harness"), *pkg)
+					} else {
+						nt, err = BuildNativeTest(repoDir(), filepath.Join(verifDir(), "harness"), *pkg)
+					}
+					if err != nil {
+						fmt.Println(err)
+						return 2
+					}
+					defer nt.Close()
+				}
+				tape := filepath.Join(nt.Tmp, fmt.Sprintf("v%d.json", i))
+				if v.Params == nil {
+					v.Params = params
+				}
+				writeReplayFile(tape, "", *pkg, v)
+				r, _ := nt.Run(tape, 30*time.Second)
+				fmt.Printf("   NATIVE: %s  (confirms=%v)\n", r, confirms(v, r))
 			}
 		}
 		return 0
